@@ -31,6 +31,12 @@ stream, the full read and the read of [row_beg, row_end):
       outside [0, n], file truncated before its last data line, a data line does not parse; it never touches
       an element outside a vector whatever the indices in the file are.
 
+Units mm_dense_*: the dense (array) reader mm_reader::operator()(std::vector<Val> &val, row_beg, row_end) over the same stream
+abstraction (size line "n m"; one value token per data line; data line j*n + i holds entry (i, j)): the range read is the
+row-major slice of the full read value by value, the reader throws exactly on a coordinate file / wrong kind / bad size line /
+range beyond n / truncation / unparsable line of a requested row, all accesses in bounds.  mm_dense_strict: the same with negative
+sizes in the size line allowed (they make the reader throw; dense half of defect F14, repaired).
+
 Bounded (unwound) units: never counted as proved."""
 import os
 import re
@@ -726,6 +732,9 @@ def _mk_dense(name, desc, extra_defs, variants, thorough, bound, timeout=300):
                      'more than one value token on a data line', 'the writers',
                      'an inverted row range (row_beg > row_end): caller error, required not to occur'],
     )
+    # the two loops of the reader (column j < m, row i < n): per-loop limit; with the global --unwind (sized for the vector capacity)
+    # symex unrolled them 12 x 12 times per run: measured 88 s instead of 5 s at n, m <= 2.  Unwinding assertions stay on.
+    u.unwindset = [(r'for\(ptrdiff_t \w+ = 0; \w+ < \w+;', 'NMAX+1')]
     u.replay_asan = True
     u.drop_checks = []
     # read_value<T>: the `std::is_same<T, char>` branch (8-bit integers read through an int) does not exist in this instantiation
@@ -739,13 +748,15 @@ mm_dense = _mk_dense(
     'column-major file, value by value); throws exactly on a coordinate file / wrong kind / bad size line / range beyond n / '
     'truncation / unparsable data line of a requested row; every vector access in bounds; the file is not modified',
     '#define N_LO 0\n',
-    variants=[{'NMAX': 2, 'ZMAX': 5}],
-    thorough=[{'NMAX': 3, 'ZMAX': 10}],
-    bound='every array file with 0 <= n, m <= 2 (thorough: 3), 0 .. n*m+1 data lines present (truncated, complete, one trailing line), '
+    # measured (minisat, shared host, cbmc alone): n, m <= 2: 5 s; n, m <= 3: 13 s; n, m <= 4: 72 s
+    variants=[{'NMAX': 3, 'ZMAX': 10}],
+    thorough=[{'NMAX': 4, 'ZMAX': 17}],
+    bound='every array file with 0 <= n, m <= 3 (thorough: 4), 0 .. n*m+1 data lines present (truncated, complete, one trailing line), '
           'any value tokens, any per-line parse failure, any banner flags / value kind, every caller row range that is not inverted (64-bit symbolic)')
 
 # Damaged size line: the same contract with NEGATIVE sizes in the size line allowed (std::vector::resize of a negative product =
-# std::length_error in the vector model).  Gated (C19_DENSE_STRICT=1): see the report of this unit.
+# std::length_error in the vector model).  This unit exposed the dense half of defect F14 (sizes of the size line not validated:
+# '-2 0' returned a 18446744073709551614 x 0 array without exception); repaired in /repo, the unit passes on the repaired tree.
 mm_dense_strict = _mk_dense(
     'mm_dense_strict',
     'MatrixMarket dense (array) reader, damaged size line: the contract of mm_dense_read with negative sizes allowed: a negative row or column count makes the reader throw',
@@ -753,7 +764,13 @@ mm_dense_strict = _mk_dense(
     variants=[{'NMAX': 2, 'ZMAX': 5}],
     thorough=None,
     bound='array files with -2 <= n, m <= 2, up to 5 data lines')
+# the implicit conversion ptrdiff_t -> size_t of a NEGATIVE product at val.resize(..) is defined behaviour in C++ (a huge size:
+# std::length_error, which is what the vector model does with it); the conversion check would flag the model's own cast.  The
+# negative sizes that reach std::make_tuple are caught by the clause "a negative row or column count makes the reader throw".
+mm_dense_strict.drop_checks = ['--conversion-check']
+mm_dense_strict.assumptions = mm_dense_strict.assumptions + [
+    'A-conv: --conversion-check off in this unit only (negative ptrdiff_t -> size_t at resize() is defined in C++ and modelled as std::length_error)']
+mm_dense.not_decided = mm_dense.not_decided + [
+    'a negative row or column count in the size line: unit mm_dense_strict']
 
-UNITS = [mm_sparse, mm_strict, mm_dense]
-if os.environ.get('C19_DENSE_STRICT'):
-    UNITS.append(mm_dense_strict)
+UNITS = [mm_sparse, mm_strict, mm_dense, mm_dense_strict]
